@@ -269,7 +269,7 @@ def main():
                            " plus, in the thorough tier, dedicated CPU-hog processes"])
     run.require("executions_compared", "run_calls_that_advanced", "stored_script_reruns", "euler_seed_pairs")
     thorough = tier() == "thorough"
-    nscripts = 400 if thorough else 96
+    nscripts = 800 if thorough else 96
     nvar = 16 if thorough else 8
     sd = seed()
     refs = [{"seed": sd, "idx": i} for i in range(nscripts)]
